@@ -17,9 +17,11 @@ if ! cmp -s lean/Pw/Generated/TransError.lean.new lean/Pw/Generated/TransError.l
 if ! cmp -s lean/Pw/Generated/TransWriter.lean.new lean/Pw/Generated/TransWriter.lean; then mv lean/Pw/Generated/TransWriter.lean.new lean/Pw/Generated/TransWriter.lean; else rm lean/Pw/Generated/TransWriter.lean.new; fi
 ./bin/pwtranslate -cache "${VERIF_REPO:-/repo}" > lean/Pw/Generated/TransCache.lean.new
 if ! cmp -s lean/Pw/Generated/TransCache.lean.new lean/Pw/Generated/TransCache.lean; then mv lean/Pw/Generated/TransCache.lean.new lean/Pw/Generated/TransCache.lean; else rm lean/Pw/Generated/TransCache.lean.new; fi
+./bin/pwtranslate -startup "${VERIF_REPO:-/repo}" > lean/Pw/Generated/TransStartup.lean.new
+if ! cmp -s lean/Pw/Generated/TransStartup.lean.new lean/Pw/Generated/TransStartup.lean; then mv lean/Pw/Generated/TransStartup.lean.new lean/Pw/Generated/TransStartup.lean; else rm lean/Pw/Generated/TransStartup.lean.new; fi
 ./bin/pwextract "${VERIF_REPO:-/repo}" > lean/Pw/Generated/Facts.lean.new
 if ! cmp -s lean/Pw/Generated/Facts.lean.new lean/Pw/Generated/Facts.lean; then mv lean/Pw/Generated/Facts.lean.new lean/Pw/Generated/Facts.lean; else rm lean/Pw/Generated/Facts.lean.new; fi
-(cd lean && lake build Pw pwdriver Pw.Conformance Pw.Props.All Pw.Props.Tie Pw.Props.TieFraming Pw.Props.TieWriter Pw.Props.TieCopy Pw.Props.TieSlurp Pw.Props.TieError Pw.Props.TieCopy2 Pw.Props.TieDataWriter Pw.Props.TieCache)
+(cd lean && lake build Pw pwdriver Pw.Conformance Pw.Props.All Pw.Props.Tie Pw.Props.TieFraming Pw.Props.TieWriter Pw.Props.TieCopy Pw.Props.TieSlurp Pw.Props.TieError Pw.Props.TieCopy2 Pw.Props.TieDataWriter Pw.Props.TieCache Pw.Props.TieStartup)
 cp "${VERIF_REPO:-/repo}/go.sum" go/harness/go.sum
 (cd go/harness && go build -tags verif -o ../../bin/pwharness .)
 echo "setup done"
